@@ -65,6 +65,7 @@ F = [
 for f in F:
     f['status'] = 'open'
 FIXED = [
+ 'fixed: property=C03 126f370 a switch inside a recurrent subgraph kept the decision of the previous iteration: when the label changed, the consumer of the switch was started before the newly selected case had run and received None (witnesses/D39.json); also C01 C09 C11',
  'fixed: property=C09 b6e770f a switch case declared under a falsy label (\'\' or 0) was executed although another case was selected (witnesses/D38.json)',
  'fixed: property=C03 b55dc74 a node requested by a second sub-pipeline while a recurrent subgraph re-executed it (recurrent destination in two scopes, inner node read from outside): the hidden result was read as None, stored and delivered to consumers (witnesses/D37.json); also C01 C04 C09 C10 C11',
  'fixed: property=C02 a5a5236 hang when a node fails in a re-iteration of a recurrent subgraph consumed by an ordinary node of a switch case inside a one-of candidate (witnesses/D36.json)',
